@@ -62,7 +62,7 @@ pub fn check_batch(b: &LpBatch, probe: &Probe) -> Verdict {
     super::linerules::check_rule_batch("C08", b.host, &blocks, &exp, probe, &reduce)
 }
 
-const ALPHA: &[&str] = &["abc", "x1", "xy", "a b", "  xy  ", "Abc", "é1", "", "  ", "TODO: x y"];
+const ALPHA: &[&str] = &["abc", "x1", "xy", "a b", "  xy  ", "Abc", "é1", "", "  ", "TODO: x y", "\u{a0}abc\u{3000}", "\u{2003}"];
 
 pub fn enumerated(max_len: usize, batch: usize) -> Vec<LpBatch> {
     let mut specs = vec![];
